@@ -193,6 +193,7 @@ func (p *remoteProp) Gen(r *Rand, tier string, idx int) any {
 		rp.Profile.DigestHeader = true
 	}
 	rp.PlainHTTP = r.Bool()
+	rp.Profile.BlobRedirect = r.Chance(0.2)
 	if r.Chance(0.08) {
 		rp.MMTEmpty = true
 	} else if r.Chance(0.2) {
@@ -228,6 +229,9 @@ func (p *remoteProp) Gen(r *Rand, tier string, idx int) any {
 			op = RemoteOp{Op: "fetch", Node: r.Intn(nn)}
 		case x < 10:
 			op = RemoteOp{Op: "readseek", Node: r.Intn(nn)}
+			if r.Chance(0.3) {
+				op.Ref = "@blobs"
+			}
 			k := r.Range(1, 6)
 			size := int64(len(g.Nodes[op.Node].Data))
 			for j := 0; j < k; j++ {
@@ -546,6 +550,8 @@ func (p *remoteProp) step(ctx context.Context, rc *RunCtx, rp *RemoteParams, g *
 		n = g.Nodes[op.Node]
 	}
 	hist := func() string { return fmt.Sprintf("history: %v (profile %+v)", rp.Ops[:i+1], rp.Profile) }
+	viaBlobRef := op.Op == "readseek" && op.Ref == "@blobs" && n != nil && !n.IsManif
+	invalidBefore := len(reg.Invalid)
 	// model before
 	present := n != nil && regHas(reg, simRepo, n)
 	tagDigest, tagKnown := reg.TagOf(simRepo, op.Ref)
@@ -590,7 +596,12 @@ func (p *remoteProp) step(ctx context.Context, rc *RunCtx, rp *RemoteParams, g *
 		gotBytes, err = content.FetchAll(ctx, repo, n.Desc)
 	case "readseek":
 		var rc2 io.ReadCloser
-		rc2, err = repo.Fetch(ctx, n.Desc)
+		if op.Ref == "@blobs" && !n.IsManif {
+			// the same content through the blob store's FetchReference (by digest string)
+			_, rc2, err = repo.Blobs().FetchReference(ctx, n.Desc.Digest.String())
+		} else {
+			rc2, err = repo.Fetch(ctx, n.Desc)
+		}
 		if err == nil {
 			seekViolation = p.readSeek(rc2, n, op, present, &err, func() string {
 				if f, _ := after(); f && rp.Fault != nil {
@@ -682,6 +693,12 @@ func (p *remoteProp) step(ctx context.Context, rc *RunCtx, rp *RemoteParams, g *
 		return nil
 	}
 
+	if viaBlobRef && fired && rp.Fault != nil && rp.Fault.Kind == "content-length" {
+		// the caller named no size, so the client works with the announced one: positions
+		// relative to the end and Range requests follow from it and are not judged
+		reg.Invalid = reg.Invalid[:invalidBefore]
+		return nil
+	}
 	if seekViolation != nil {
 		seekViolation.Detail += "\n" + hist()
 		return seekViolation
@@ -713,14 +730,19 @@ func (p *remoteProp) step(ctx context.Context, rc *RunCtx, rp *RemoteParams, g *
 				// PUTs, deletes and mounts return neither and are not judged (the client
 				// verifies some of them, which is fine either way).
 				pinned = byDigest && (rq.Method == "GET" || rq.Method == "HEAD") && (op.Op == "fetch" || op.Op == "readseek" || op.Op == "exists" || op.Op == "resolvedigest" || op.Op == "fetchrefdigest")
-				if op.Op == "fetchrefdigest" && rq.Method == "GET" && rp.Profile.NoContentLength {
+				if (op.Op == "fetchrefdigest" || viaBlobRef) && rq.Method == "GET" && rp.Profile.NoContentLength {
 					// without a Content-Length the descriptor is taken from a separate HEAD exchange and the
 					// body is verified by the caller: nothing inconsistent is returned
 					pinned = false
 				}
 			case "content-length":
 				// pinned when the caller named the size: fetches by descriptor
-				pinned = byDigest && rq.Method == "GET" && rq.Status == 200 && op.Op != "fetchrefdigest"
+				pinned = byDigest && rq.Method == "GET" && rq.Status == 200 && op.Op != "fetchrefdigest" && !viaBlobRef
+				if viaBlobRef {
+					// the caller named no size: the client takes the announced one, and a later Range
+					// request computed from it is the registry's doing, not a malformed request
+					reg.Invalid = reg.Invalid[:invalidBefore]
+				}
 			case "content-type":
 				pinned = byDigest && rq.Class == "manifest" && rq.Method == "GET" && rq.Status == 200 && op.Op != "fetchrefdigest"
 			case "truncate-body", "flip-body":
